@@ -1,6 +1,7 @@
 package main
 
-// C08 — determinism. One seeded block sequence (signed bank / delegation / operator / oracle txs
+// C08 — determinism. One seeded block sequence (signed bank / delegation (1-8 per-operator entries,
+// failing entries at random positions: dom_determinism_msgorder.go) / operator / oracle txs
 // through the real DeliverTx, keeper-level LST deposits, delegations, undelegations and slashes
 // wrapped like messages, malformed tx bytes, epoch ends, validator-set changes) is executed
 //   * in K child processes of this very binary (Go randomises map iteration per process and per
@@ -17,6 +18,7 @@ import (
 	"encoding/hex"
 	"encoding/json"
 	"fmt"
+	"math/big"
 	"os"
 	"os/exec"
 	"path/filepath"
@@ -97,7 +99,15 @@ var detTraceMemory bool
 
 type detStats struct {
 	txs, txOK, keeperOps, keeperOK, epochs, valUpdates, slashes, malformed, oracleOK, avsTaskPairs int
+	multiOp, multiOpFailing                                                                        int
 }
+
+// gas limit of the delegation / undelegation txs (up to 8 entries)
+const detDelegationGas = 3000000
+
+// detRepeatHook (set by the parent around its reference run): the repeat monitor of
+// dom_determinism_msgorder.go on the deliver state the tx is about to be executed on
+var detRepeatHook func(c *Chain, block int, bz []byte, msg sdk.Msg, signer Actor, gas uint64)
 
 // runDetSequence executes the seeded sequence on a fresh app and returns the trace lines.
 // restartEvery > 0: drop the oracle's in-memory state after every restartEvery-th commit.
@@ -179,6 +189,11 @@ func runDetSequence(seed uint64, blocks int, restartEvery int, chainID string) (
 		for k := 0; k < nOps; k++ {
 			var bz []byte
 			var err error
+			// set by the kinds whose handlers keep no process-local state (bank, delegation, operator): the
+			// message is put through the repeat monitor before it is delivered (parent's reference run only)
+			var repeatMsg sdk.Msg
+			var repeatGas uint64
+			repeatSigner := c.Funded
 			kind := rng.Pick(5, 3, 2, 2, 4, 4, 3, 2, 2, 2)
 			switch kind {
 			case 0: // bank send funded -> someone (also funds would-be operators)
@@ -188,18 +203,51 @@ func runDetSequence(seed uint64, blocks int, restartEvery int, chainID string) (
 					to = c.Operators[rng.Intn(len(c.Operators))].Acc
 				}
 				amt := sdkmath.NewIntWithDecimal(int64(1+rng.Intn(5)), 18)
-				bz, err = signedTx(c, c.Funded, 300000, banktypes.NewMsgSend(c.Funded.Acc, to, sdk.NewCoins(sdk.NewCoin(utils.BaseDenom, amt))))
+				repeatMsg, repeatGas = banktypes.NewMsgSend(c.Funded.Acc, to, sdk.NewCoins(sdk.NewCoin(utils.BaseDenom, amt))), 300000
+				bz, err = signedTx(c, c.Funded, 300000, repeatMsg)
 				if to.Equals(newOps[i].Acc) {
 					funded[i] = true
 				}
-			case 1: // native-token delegation / undelegation msg
-				op := c.Operators[rng.Intn(len(c.Operators))]
-				amt := sdkmath.NewInt(int64(1 + rng.Intn(1000)))
-				kv := []delegationtypes.KeyValue{{Key: op.Acc.String(), Value: &delegationtypes.ValueField{Amount: amt}}}
-				if rng.Chance(2, 3) {
-					bz, err = signedTx(c, c.Funded, 1000000, delegationtypes.NewMsgDelegation(assetstypes.ExocoreAssetID, c.Funded.Acc.String(), kv))
+			case 1: // native-token delegation / undelegation msg with 1-8 per-operator entries, mostly valid, with
+				// failing entries at random positions (generator of dom_determinism_msgorder.go): the error code
+				// and the gas of such a message depend on the order in which the handler visits the entries
+				var reg, unk []sdk.AccAddress
+				for _, o := range c.Operators {
+					reg = append(reg, o.Acc)
+				}
+				for _, a := range newOps {
+					if c.App.OperatorKeeper.IsOperator(c.Ctx, a.Acc) {
+						reg = append(reg, a.Acc)
+					} else {
+						unk = append(unk, a.Acc)
+					}
+				}
+				unk = append(unk, stakers[0].Acc, stakers[1].Acc) // never operators
+				sid := StakerIDOf(assetstypes.ExocoreChainLzID, c.Funded.Eth)
+				bal := c.App.BankKeeper.GetBalance(c.Ctx, c.Funded.Acc, assetstypes.ExocoreAssetDenom).Amount.BigInt()
+				bal.Sub(bal, new(big.Int).Mul(big.NewInt(detDelegationGas), big.NewInt(1_000_000_000)))
+				ee := entryEnv{registered: reg, unknown: unk, balance: bal, delegated: func(op sdk.AccAddress) *big.Int {
+					d, e1 := c.App.DelegationKeeper.GetSingleDelegationInfo(c.Ctx, sid, assetstypes.ExocoreAssetID, op.String())
+					p, e2 := c.App.AssetsKeeper.GetOperatorSpecifiedAssetInfo(c.Ctx, op, assetstypes.ExocoreAssetID)
+					if e1 != nil || e2 != nil || d == nil || p == nil || !p.TotalShare.IsPositive() {
+						return nil
+					}
+					return d.UndelegatableShare.MulInt(p.TotalAmount).Quo(p.TotalShare).TruncateInt().BigInt()
+				}}
+				undel := !rng.Chance(2, 3)
+				kvs, shape := genPerOperatorAmounts(rng, ee, undel)
+				if undel {
+					repeatMsg = delegationtypes.NewMsgUndelegation(assetstypes.ExocoreAssetID, c.Funded.Acc.String(), kvs)
 				} else {
-					bz, err = signedTx(c, c.Funded, 1000000, delegationtypes.NewMsgUndelegation(assetstypes.ExocoreAssetID, c.Funded.Acc.String(), kv))
+					repeatMsg = delegationtypes.NewMsgDelegation(assetstypes.ExocoreAssetID, c.Funded.Acc.String(), kvs)
+				}
+				repeatGas = detDelegationGas
+				bz, err = signedTx(c, c.Funded, detDelegationGas, repeatMsg)
+				if shape.n >= 2 {
+					st.multiOp++
+					if shape.failing > 0 {
+						st.multiOpFailing++
+					}
 				}
 			case 2: // register operator
 				i := rng.Intn(len(newOps))
@@ -207,10 +255,11 @@ func runDetSequence(seed uint64, blocks int, restartEvery int, chainID string) (
 					continue
 				}
 				a := newOps[i]
-				bz, err = signedTx(c, a, 1000000, &operatortypes.RegisterOperatorReq{FromAddress: a.Acc.String(), Info: &operatortypes.OperatorInfo{
+				repeatMsg, repeatGas, repeatSigner = &operatortypes.RegisterOperatorReq{FromAddress: a.Acc.String(), Info: &operatortypes.OperatorInfo{
 					EarningsAddr: a.Acc.String(), OperatorMetaInfo: fmt.Sprintf("newop%d", i),
 					Commission: stakingtypes.NewCommission(sdk.ZeroDec(), sdk.ZeroDec(), sdk.ZeroDec()),
-				}})
+				}}, 1000000, a
+				bz, err = signedTx(c, a, 1000000, repeatMsg)
 				registered[i] = true
 			case 3: // opt into the dogfood AVS with a consensus key / opt out
 				i := rng.Intn(len(newOps))
@@ -220,10 +269,12 @@ func runDetSequence(seed uint64, blocks int, restartEvery int, chainID string) (
 				a := newOps[i]
 				if rng.Chance(3, 4) {
 					ck, _ := NewConsKey(seed, "newcons", i)
-					bz, err = signedTx(c, a, 2000000, &operatortypes.OptIntoAVSReq{FromAddress: a.Acc.String(), AvsAddress: c.AVSAddr, PublicKeyJSON: ck.ToJSON()})
+					repeatMsg = &operatortypes.OptIntoAVSReq{FromAddress: a.Acc.String(), AvsAddress: c.AVSAddr, PublicKeyJSON: ck.ToJSON()}
 				} else {
-					bz, err = signedTx(c, a, 2000000, &operatortypes.OptOutOfAVSReq{FromAddress: a.Acc.String(), AvsAddress: c.AVSAddr})
+					repeatMsg = &operatortypes.OptOutOfAVSReq{FromAddress: a.Acc.String(), AvsAddress: c.AVSAddr}
 				}
+				repeatGas, repeatSigner = 2000000, a
+				bz, err = signedTx(c, a, 2000000, repeatMsg)
 			case 4: // oracle price tx by a genesis validator
 				vi := rng.Intn(len(c.ConsPrivs))
 				priv := c.ConsPrivs[vi]
@@ -326,6 +377,9 @@ func runDetSequence(seed uint64, blocks int, restartEvery int, chainID string) (
 			if err != nil {
 				txLines = append(txLines, "build-err")
 				continue
+			}
+			if detRepeatHook != nil && repeatMsg != nil {
+				detRepeatHook(c, b, bz, repeatMsg, repeatSigner, repeatGas)
 			}
 			r, hlt := c.DeliverRaw(bz)
 			if hlt != "" {
@@ -496,8 +550,17 @@ func domDeterminism(env *Env) error {
 	for hi := 0; hi < seqs; hi++ {
 		sseed := seed*100 + uint64(hi)
 		hist := []string{fmt.Sprintf("det.reset seed=%d blocks=%d procs=%d", sseed, blocks, procs)}
-		// the parent's own execution is the reference (and provides the statistics)
+		// the parent's own execution is the reference (and provides the statistics); its bank / delegation /
+		// operator messages are first executed `repeat` times on branches of the deliver state (C08.repeat)
+		if rp := env.Int("repeat", 6); rp >= 2 {
+			detRepeatHook = func(c *Chain, block int, bz []byte, msg sdk.Msg, signer Actor, gas uint64) {
+				fee := new(big.Int).Mul(new(big.Int).SetUint64(gas), big.NewInt(1_000_000_000))
+				repeatMonitor(env, c, bz, msg, gas, antePrep(c, signer.Acc, fee), rp,
+					fmt.Sprintf("%s of %s in block index %d", describeMsg(msg), signer.Acc, block), append(append([]string{}, hist...), fmt.Sprintf("det.block %d", block)))
+			}
+		}
 		ref, st, halt := runDetSequence(sseed, blocks, 0, "")
+		detRepeatHook = nil
 		env.Op(hist[0], "ok")
 		// the parent replays the two restart schedules itself to learn, for every emulated restart, what
 		// the oracle rounds looked like when the process "stopped" (used to classify a divergence)
@@ -574,6 +637,8 @@ func domDeterminism(env *Env) error {
 		env.DistinctKey(fmt.Sprintf("seq%d-%d-%d-%d", sseed, st.txOK, st.keeperOK, st.valUpdates))
 		env.Report.Outcomes["tx.delivered"] += st.txs
 		env.Report.Outcomes["tx.code0"] += st.txOK
+		env.Report.Outcomes["tx.multi-operator"] += st.multiOp
+		env.Report.Outcomes["tx.multi-operator.with-failing-entry"] += st.multiOpFailing
 		env.Report.Outcomes["tx.oracle.code0"] += st.oracleOK
 		env.Report.Outcomes["keeper.ops"] += st.keeperOps
 		env.Report.Outcomes["keeper.ok"] += st.keeperOK
